@@ -898,15 +898,20 @@ inline int run_property(const Property& prop, const std::string& rule) {
         std::string err_tail = read_tail(errpath, 6000);
         next = idx + 1;
         if (o.kind == ChildOutcome::hung) {
-            // rule 5: a time budget alone never produces a violation: confirm in a fresh process with a larger budget.
-            // The journal may be incomplete for a hang in generation, so replay by seed-equivalent sequence.
-            ChildOutcome again = run_sequence(prop, seq, false, opts().case_timeout * 4, errpath);
+            // rule 5: a time budget alone never produces a violation. Pre-filter here with a 4x budget; what still hangs is only a
+            // *candidate*: the driver re-runs it alone (no sibling shards loading the machine) with a long budget, three times.
+            ChildOutcome again = run_sequence(prop, seq, true, opts().case_timeout * 4, errpath);
             if (again.kind != ChildOutcome::hung) {
                 count("slow_case_not_reproduced");
                 if (again.kind == ChildOutcome::ok) continue;
                 o = again;  // a real failure showed instead
-            } else if (!opts().hang_is_violation) {
-                res.notes.push_back("case " + std::to_string(idx) + " hung twice; hangs are not part of this property");
+            } else {
+                if (opts().hang_is_violation) {
+                    std::string path = write_replay(opts().viol_dir + "/" + opts().prop, "hang-candidate", o.msg, seq, const_cast<const char*>(sh->desc), read_tail(errpath, 3000));
+                    res.failures.push_back(FailureRec{"hang-candidate", o.msg, path});
+                } else {
+                    res.notes.push_back("case " + std::to_string(idx) + " hung twice; hangs are not part of this property");
+                }
                 continue;
             }
         }
